@@ -362,4 +362,115 @@ theorem edge_crossing_complete (s : Seg) (A B : Pt) (t : Rat)
     rw [← ht]
     simp [h01, hon]
 
+/-! ### Sutherland–Hodgman -/
+
+theorem eval_lerp3 (h : HS) (P Q : P3) (t : Rat) :
+    h.eval (lerp3 P Q t) = h.eval P + t * (h.eval Q - h.eval P) := by
+  simp only [HS.eval, lerp3]; ring
+
+theorem mem_shEdge (h : HS) (P Q X : P3) (hX : X ∈ shEdge h P Q) :
+    (X = P ∧ h.eval P ≤ 0) ∨
+      (X = lerp3 P Q (h.eval P / (h.eval P - h.eval Q)) ∧
+        ((h.eval P < 0 ∧ 0 < h.eval Q) ∨ (0 < h.eval P ∧ h.eval Q < 0))) := by
+  simp only [shEdge, List.mem_append] at hX
+  rcases hX with hX | hX
+  · split_ifs at hX with h1
+    · left; exact ⟨List.mem_singleton.mp hX, h1⟩
+    · cases hX
+  · split_ifs at hX with h1
+    · right; exact ⟨List.mem_singleton.mp hX, h1⟩
+    · cases hX
+
+theorem shEdge_sound (h : HS) (P Q X : P3) (hX : X ∈ shEdge h P Q) : h.eval X ≤ 0 := by
+  rcases mem_shEdge h P Q X hX with ⟨rfl, h1⟩ | ⟨rfl, h1⟩
+  · exact h1
+  · rw [eval_lerp3]
+    have hne : h.eval P - h.eval Q ≠ 0 := by rcases h1 with ⟨a, b⟩ | ⟨a, b⟩ <;> intro e <;> linarith
+    have : h.eval P / (h.eval P - h.eval Q) * (h.eval Q - h.eval P) = - h.eval P := by
+      field_simp; ring
+    linarith
+
+theorem shEdge_preserves (h g : HS) (P Q X : P3) (hP : g.eval P ≤ 0) (hQ : g.eval Q ≤ 0)
+    (hX : X ∈ shEdge h P Q) : g.eval X ≤ 0 := by
+  rcases mem_shEdge h P Q X hX with ⟨rfl, _⟩ | ⟨rfl, h1⟩
+  · exact hP
+  · rw [eval_lerp3]
+    generalize h.eval P = fp at *
+    generalize h.eval Q = fq at *
+    have ht : 0 ≤ fp / (fp - fq) ∧ fp / (fp - fq) ≤ 1 := by
+      rcases h1 with ⟨a, b⟩ | ⟨a, b⟩
+      · have hd : fp - fq < 0 := by linarith
+        constructor
+        · exact div_nonneg_of_nonpos a.le hd.le
+        · rw [div_le_one_of_neg hd]; linarith
+      · have hd : 0 < fp - fq := by linarith
+        constructor
+        · exact div_nonneg a.le hd.le
+        · rw [div_le_one hd]; linarith
+    generalize fp / (fp - fq) = t at *
+    nlinarith [mul_nonneg ht.1 (neg_nonneg.mpr hQ), mul_nonneg (sub_nonneg.mpr ht.2) (neg_nonneg.mpr hP)]
+
+theorem mem_shAux (h : HS) (first : P3) (l : List P3) (X : P3) (hX : X ∈ shAux h first l) :
+    ∃ P ∈ l, ∃ Q ∈ first :: l, X ∈ shEdge h P Q := by
+  induction l with
+  | nil => simp [shAux] at hX
+  | cons a rest ih =>
+    cases rest with
+    | nil =>
+      simp only [shAux] at hX
+      exact ⟨a, by simp, first, by simp, hX⟩
+    | cons b rest =>
+      simp only [shAux, List.mem_append] at hX
+      rcases hX with hX | hX
+      · exact ⟨a, by simp, b, by simp, hX⟩
+      · obtain ⟨P, hP, Q, hQ, hXe⟩ := ih hX
+        refine ⟨P, List.mem_cons_of_mem _ hP, Q, ?_, hXe⟩
+        rcases List.mem_cons.mp hQ with rfl | hQ
+        · simp
+        · exact List.mem_cons_of_mem _ (List.mem_cons_of_mem _ hQ)
+
+theorem mem_shClip1 (h : HS) (poly : List P3) (X : P3) (hX : X ∈ shClip1 h poly) :
+    ∃ P ∈ poly, ∃ Q ∈ poly, X ∈ shEdge h P Q := by
+  cases poly with
+  | nil => simp [shClip1] at hX
+  | cons a rest =>
+    obtain ⟨P, hP, Q, hQ, hXe⟩ := mem_shAux h a (a :: rest) X hX
+    refine ⟨P, hP, Q, ?_, hXe⟩
+    rcases List.mem_cons.mp hQ with rfl | hQ
+    · simp
+    · exact hQ
+
+theorem shClip1_sound (h : HS) (poly : List P3) (X : P3) (hX : X ∈ shClip1 h poly) : h.eval X ≤ 0 := by
+  obtain ⟨P, _, Q, _, hXe⟩ := mem_shClip1 h poly X hX
+  exact shEdge_sound h P Q X hXe
+
+theorem shClip1_preserves (h g : HS) (poly : List P3) (hg : ∀ P ∈ poly, g.eval P ≤ 0) (X : P3)
+    (hX : X ∈ shClip1 h poly) : g.eval X ≤ 0 := by
+  obtain ⟨P, hP, Q, hQ, hXe⟩ := mem_shClip1 h poly X hX
+  exact shEdge_preserves h g P Q X (hg P hP) (hg Q hQ) hXe
+
+theorem shClip_preserves (hs : List HS) (g : HS) (poly : List P3) (hg : ∀ P ∈ poly, g.eval P ≤ 0)
+    (X : P3) (hX : X ∈ shClip hs poly) : g.eval X ≤ 0 := by
+  induction hs generalizing poly with
+  | nil => exact hg X hX
+  | cons h hs ih => exact ih (shClip1 h poly) (fun P hP => shClip1_preserves h g poly hg P hP) hX
+
+theorem shEdge_inside (h : HS) (P Q : P3) (hP : h.eval P ≤ 0) (hQ : h.eval Q ≤ 0) : shEdge h P Q = [P] := by
+  simp only [shEdge, hP, if_true]
+  rw [if_neg]
+  · simp
+  · rintro (⟨_, b⟩ | ⟨a, _⟩) <;> linarith
+
+theorem shAux_inside (h : HS) (first : P3) (l : List P3) (hf : h.eval first ≤ 0)
+    (hl : ∀ P ∈ l, h.eval P ≤ 0) : shAux h first l = l := by
+  induction l with
+  | nil => rfl
+  | cons a rest ih =>
+    cases rest with
+    | nil => simp only [shAux]; exact shEdge_inside h a first (hl a (by simp)) hf
+    | cons b rest =>
+      simp only [shAux]
+      rw [shEdge_inside h a b (hl a (by simp)) (hl b (by simp)), ih (fun P hP => hl P (List.mem_cons_of_mem _ hP))]
+      rfl
+
 end PorepyVerif.C44
